@@ -1252,3 +1252,28 @@ multi('seed-c16-shared-cursor', ['C16', 'C08'], 'break', [
          new="self._connection = connection\nself._read_cursor = connection.cursor()"),
     dict(file=SQL, func='SQLiteFederatedData._read_clients', mode='expr', old="self._connection.execute", new="self._read_cursor.execute"),
 ], expect={'C16': 'R-PAIR.cursor', 'C08': 'R-ORDER.cursor'})
+m('seed-c18-inverse-shortcut', 'C18', 'break', WH, 'inverse_structured_rotation',
+  "rademacher = jax.random.rademacher(rng, x.shape)",
+  "if x.size == 1:\n  return jnp.reshape(x, original_shape)\nrademacher = jax.random.rademacher(rng, x.shape)", expect='R-SIB.rotation.paths')
+m('seed-c18-einsum-out-keeps-axis', 'C18', 'break', WH, 'walsh_hadamard_transform',
+  "out_dims = y_dims.replace(str(i), str(num_dims + 1), 1)", "out_dims = y_dims", expect='R-SCHEDULE')
+m('seed-c18-einsum-label-guard', 'C18', 'break', WH, 'walsh_hadamard_transform',
+  "num_dims + 1 >= 10", "num_dims + 1 > 10", mode='expr', expect='R-SCHEDULE')
+m('seed-c18-einsum-label-collides', 'C18', 'break', WH, 'walsh_hadamard_transform',
+  "h_dims = f'{i}{num_dims + 1}'", "h_dims = f'{i}{num_dims - 1}'", expect='R-SCHEDULE')
+m('seed-c18-einsum-h-transposed-twin', 'C18', 'neutral', WH, 'walsh_hadamard_transform',
+  "h_dims = f'{i}{num_dims + 1}'", "h_dims = f'{num_dims + 1}{i}'")
+m('seed-c18-tensordot-swapaxes', 'C18', 'break', WH, 'walsh_hadamard_transform',
+  "y = jnp.einsum(operands, y, hadamards[d], precision=precision)",
+  "y = jnp.tensordot(y, hadamards[d], axes=[[i], [0]], precision=precision)\ny = jnp.swapaxes(y, i, -1)", expect='R-SCHEDULE')
+m('seed-c18-tensordot-moveaxis-twin', 'C18', 'neutral', WH, 'walsh_hadamard_transform',
+  "y = jnp.einsum(operands, y, hadamards[d], precision=precision)",
+  "y = jnp.tensordot(y, hadamards[d], axes=[[i], [0]], precision=precision)\ny = jnp.moveaxis(y, -1, i)")
+m('c18-scale-pow-twin', 'C18', 'neutral', WH, SR,
+  "return (walsh_hadamard_transform(w * rademacher) / jnp.sqrt(d), jnp.array(x.shape))",
+  "return (walsh_hadamard_transform(w * rademacher) * d ** -0.5, jnp.array(x.shape))")
+m('c18-scale-reciprocal-twin', 'C18', 'neutral', WH, ISR, "w = walsh_hadamard_transform(x) * rademacher / jnp.sqrt(x.size)",
+  "w = rademacher * walsh_hadamard_transform(x) * (1 / jnp.sqrt(x.size))")
+m('c18-forward-unscaled', 'C18', 'break', WH, SR,
+  "return (walsh_hadamard_transform(w * rademacher) / jnp.sqrt(d), jnp.array(x.shape))",
+  "return (walsh_hadamard_transform(w * rademacher), jnp.array(x.shape))", expect='R-SIB.rotation')
